@@ -26,7 +26,8 @@ def run_case(case):
     pre = case['pre']
     n_ids = case['n_ids']
     names = ['d%d.example.org' % i for i in range(n_ids)]
-    plan = {'default': {'lifetimes_s': ([100, LONG] if pre else [LONG]), 'chain_lens': [2, 3], 'nonce_on_get': True},
+    # with a pre-existing pair the certificate that replaces it expires *earlier* than the installed one (300 s, then 100 s)
+    plan = {'default': {'lifetimes_s': ([300, 100, LONG] if pre else [LONG]), 'chain_lens': [2, 3], 'nonce_on_get': True},
             'faults': case['rules']}
     want_succ = 2 if pre else 1
 
